@@ -180,10 +180,13 @@ def _pump(ctx, R, roles, li, T):
     for n in g.live_nodes():
         for c in _store_calls(ctx, f, n, ("clear",)):
             sub = "%s|%s" % (f.qualname, norm_stmt(c))
-            ok = len(c.args) == 2 and not c.keywords
+            byname = {k.arg: k.value for k in c.keywords if k.arg}
+            a0 = c.args[0] if len(c.args) >= 1 else byname.get("arg0")
+            a1 = c.args[1] if len(c.args) >= 2 else byname.get("arg1")
+            ok = a0 is not None and a1 is not None and not any(isinstance(a, ast.Starred) for a in c.args)
             if ok:
-                k0, _t0 = expr_kind(ctx, f, n, c.args[0])
-                k1, _t1 = expr_kind(ctx, f, n, c.args[1])
+                k0, _t0 = expr_kind(ctx, f, n, a0)
+                k1, _t1 = expr_kind(ctx, f, n, a1)
                 ok = k0 == Rk and k1 == L
             R.check(ok, "KIND-clear", sub, "store clear() keyed (remote id, local id)",
                     "store clear() is not keyed (remote id, local id): with unequal ids it forgets ANOTHER stream's entry (the one whose ids mirror this stream's) and leaves its own", f.loc(n.ast))
